@@ -414,3 +414,141 @@ def id_width_cases(ctx):
                         break
     ctx.cov.add_cases("AXI4 fabrics with unequal master id widths: ids preserved both ways (direct check)", total, total)
     return dis
+
+
+# ---------------------------------------------------------------------------------------------------------
+# fabrics whose finite bus timeout FIRES: service after a forced response
+
+class TimeoutServiceMonitor:
+    """C08 clause `every requesting master is eventually served` on a shared interconnect whose AXI(Lite)Timeout fires
+    (the routing rules of AxiMonitor do not apply there: the watchdog answers in place of the slave — property C11).
+    Port level only, independent of the model.  Per direction it keeps: requests held by each slave (real handshakes at
+    the slave ports), forced transactions (address handshake at a master with no slave handshake in that cycle =
+    accepted by the watchdog; response handshake at a master with no slave response handshake = the forced response).
+    Rule S, armed once a forced response has completed: in a cycle in which no slave holds a request, no forced
+    transaction is open, no response is offered to anybody and exactly one master requests, that master's address is
+    shown to the slave of its region within n+1 such consecutive cycles (round-robin bound: the locks are released and
+    the grant reaches it)."""
+
+    def __init__(self, inst):
+        self.inst, self.n, self.m, self.full = inst, inst.n, inst.m, inst.full
+        self.out = [[0] * self.m for _ in (0, 1)]
+        self.forced = [[0] * self.n for _ in (0, 1)]
+        self.events = [0, 0]
+        self.wait = [[0] * self.n for _ in (0, 1)]
+
+    def observe(self, letter, outs):
+        inst, n, m = self.inst, self.n, self.m
+        ms, ss = X.split_letter(letter, n, m)
+        to_s, to_m = X.split_outs(outs, n, m)
+        for d in (0, 1):
+            AV, AA, AR_, XV, XR = (X.AWV, X.AWA, X.AWR, X.BV, X.BR) if d == 0 else (X.ARV, X.ARA, X.ARR, X.RV, X.RR)
+            dn = "write" if d == 0 else "read"
+            req = [i for i in range(n) if ms[i][AV] or (d == 0 and ms[i][X.WV])]
+            quiet = (self.events[d] > 0 and not any(self.out[d]) and not any(self.forced[d]) and
+                     not any(to_m[i][XV] for i in range(n)) and not any(ss[j][XV] for j in range(m)))
+            for i in range(n):
+                tg = inst.target(ms[i][AA]) if (quiet and req == [i] and ms[i][AV]) else []
+                if len(tg) == 1 and not (to_s[tg[0]][AV] and to_s[tg[0]][AA] == ms[i][AA]):
+                    self.wait[d][i] += 1
+                    if self.wait[d][i] > n:
+                        return ("S: after a forced (timeout) %s response completed, master %d presents %s address %#x for %d "
+                                "cycles with no slave holding a request, no response offered and nobody else requesting, and "
+                                "slave %d (its region) still does not see it: grant / slave select not released"
+                                % (dn, i, dn, ms[i][AA], self.wait[d][i], tg[0]))
+                else:
+                    self.wait[d][i] = 0
+            MA = [i for i in range(n) if ms[i][AV] and to_m[i][AR_]]
+            SA = [j for j in range(m) if to_s[j][AV] and ss[j][AR_]]
+            for j in SA:
+                self.out[d][j] += 1
+            if MA and not SA:
+                for i in MA:
+                    self.forced[d][i] += 1
+            MR = [i for i in range(n) if to_m[i][XV] and ms[i][XR]]
+            SR = [j for j in range(m) if ss[j][XV] and to_s[j][XR]]
+            for j in SR:
+                if d == 0 or not self.full or ss[j][X.RL]:
+                    self.out[d][j] = max(0, self.out[d][j] - 1)
+            if MR and not SR:
+                for i in MR:
+                    if self.forced[d][i] > 0:
+                        self.forced[d][i] -= 1
+                        self.events[d] += 1
+        return None
+
+
+def replay_timeout_service(inst, trace):
+    mon = TimeoutServiceMonitor(inst)
+    nl = inst.netlist
+    root = nl.snapshot()
+    res = None
+    for t, l in enumerate(trace):
+        msg = mon.observe(l, impl_step(inst, l))
+        if msg:
+            res = (t, msg)
+            break
+    nl.restore(root)
+    return res
+
+
+def timeout_service_cases(ctx):
+    """Directed histories on real shared interconnects with a small finite timeout: slave 0 is silent, master 0's read
+    (write) to it times out — the watchdog accepts the address (and data) and gives the forced response —, then master 1
+    asks for the live slave 1.  TimeoutServiceMonitor judges: the forced response must release the locks."""
+    import wblib
+    dis, total = [], 0
+    dcor = [wblib.DecRegion(0, 0x10000), wblib.DecRegion(0x90000000, 0x3000)]
+    A0, A1 = 0x100, 0x90000010
+    for full, n, t, d in ((False, 2, 4, "r"), (True, 2, 8, "r"), (True, 3, 8, "r"), (False, 3, 4, "w"), (True, 2, 8, "w")):
+        inst = make_shared(n, dcor, full=full, timeout=t, data_width=32, address_width=32, domain=False, monitored=False)
+        mon = TimeoutServiceMonitor(inst)
+        wpay = ((1 << (X.pay_width(True, "w", 32, 32) - 1)) | 0x55) if full else 0x155
+        s0, s1 = s_part(), s_part(aw_ready=1, w_ready=1, ar_ready=1)
+        idle = m_part()
+        trace, phase, a_done, w_done, left = [], 0, False, d == "r", None
+        msg = None
+        for cyc in range(6 * t + 4 * n + 30):
+            if phase == 0:
+                if d == "r":
+                    m0 = m_part(ar=None if a_done else (A0, 0), r_ready=1)
+                else:
+                    m0 = m_part(aw=None if a_done else (A0, 0), w=None if w_done else wpay, b_ready=1)
+                parts = [m0] + [idle] * (n - 1)
+            elif phase == 1:
+                parts = [m_part(r_ready=1, b_ready=1)] + [idle] * (n - 1)
+            else:
+                m1 = m_part(ar=(A1, 0), r_ready=1) if d == "r" else m_part(aw=(A1, 0), w=wpay, b_ready=1)
+                parts = [idle, m1] + [idle] * (n - 2)
+            letter = tuple(sum(parts, ()) + s0 + s1)
+            outs = impl_step(inst, letter)
+            trace.append(letter)
+            total += 1
+            msg = mon.observe(letter, outs)
+            if msg:
+                break
+            to_s, to_m = X.split_outs(outs, n, 2)
+            if phase == 0:
+                if d == "r":
+                    a_done = a_done or bool(to_m[0][X.ARR])
+                else:
+                    a_done = a_done or bool(to_m[0][X.AWR])
+                    w_done = w_done or bool(to_m[0][X.WR])
+                if a_done and w_done:
+                    phase = 1
+            elif phase == 1:
+                if to_m[0][X.RV if d == "r" else X.BV]:
+                    phase, left = 2, 2 * n + 6
+            else:
+                left -= 1
+                if to_s[1][X.ARV if d == "r" else X.AWV] or left <= 0:
+                    break
+        label = "%sShared %dx2 timeout_cycles=%d silent slave, timed-out %s then another master" % (
+            _tag(full), n, t, "read" if d == "r" else "write")
+        if msg:
+            dis.append({"instance": label, "make": spec_of(inst), "kind": "monitor:" + msg, "monitor": msg,
+                        "monitor_kind": "timeout-service", "trace": [list(l) for l in trace]})
+        elif phase < 2:
+            ctx.cov.notes.append("%s: the watchdog did not answer within %d cycles (property C11), service rule not reached" % (label, len(trace)))
+        ctx.cov.add_cases(label, len(trace), len(trace))
+    return dis
